@@ -13,12 +13,21 @@ def SubSound (s : Srv) : Prop :=
   ∀ k v, AMap.lookup s.maps.sub k = some v →
     ∃ l p, AMap.lookup s.leases l.mac = some l ∧ macKeyOf l.mac = k ∧ v = encAssignment (assignmentOf l p)
 
-/-- every circuit-id entry is owned by a lease the table holds whose circuit-id has that key (and which is the
-    lease the circuit index holds for that circuit-id) -/
+/-- every circuit-id entry was written for a lease the table holds: that lease's circuit-id has the entry's key, the
+    circuit index holds that lease for its circuit-id, and the entry's bytes are that lease's assignment -/
 def CidSound (s : Srv) : Prop :=
   ∀ k v, AMap.lookup s.maps.cid k = some v →
-    ∃ l, AMap.lookup s.leases l.mac = some l ∧ l.cidBytes ≠ [] ∧ cidKeyOf l.cidBytes = k ∧
-      AMap.lookup s.byCid l.cidBytes = some l
+    ∃ l p, AMap.lookup s.leases l.mac = some l ∧ l.cidBytes ≠ [] ∧ cidKeyOf l.cidBytes = k ∧
+      AMap.lookup s.byCid l.cidBytes = some l ∧ v = encAssignment (assignmentOf l p)
+
+/-- every ip_pools entry is the encoding of a pool the manager holds, under that pool's id -/
+def PoolsSound (s : Srv) : Prop :=
+  ∀ k v, AMap.lookup s.maps.pools k = some v →
+    ∃ P, AMap.lookup s.pools P.id = some P ∧ k = le32 P.id ∧ v = encPool P
+
+/-- server_config holds the server's own address (or is still zero: never configured) -/
+def CfgSound (s : Srv) : Prop :=
+  ∃ c, s.maps.cfg = some c ∧ (rd32 c 8 = s.serverIp ∨ rd32 c 8 = 0)
 
 /-- the lease table is keyed by the lease's own MAC; no lease carries VLAN tags; the VLAN map is empty; the
     circuit index points to leases of the table or to stale ones only under keys nobody else's entry depends on -/
@@ -28,13 +37,17 @@ structure Inv (s : Srv) : Prop where
   vlanEmpty : s.maps.vlan = []
   sub : SubSound s
   cid : CidSound s
+  pools : PoolsSound s
+  cfg : CfgSound s
 
 theorem inv_init (now : Nat) (sip : UInt32) : Inv { now := now, serverIp := sip } :=
   { keyed := by intro m l h; simp at h
     untagged := by intro m l h; simp at h
     vlanEmpty := rfl
     sub := by intro k v h; simp at h
-    cid := by intro k v h; simp at h }
+    cid := by intro k v h; simp at h
+    pools := by intro k v h; simp at h
+    cfg := ⟨List.replicate 16 0, rfl, Or.inr (by decide)⟩ }
 
 theorem eraseCache_untagged (m : Maps) (l : Lease) (h0 : l.stag = 0 ∧ l.ctag = 0) :
     eraseCache m l = (if l.cidBytes.isEmpty then removeSubscriber m l.mac
@@ -53,7 +66,13 @@ theorem inv_drop {s : Srv} (h : Inv s) (l : Lease) (hl : AMap.lookup s.leases l.
   have h0 := h.untagged _ _ hl
   have hmaps : (s.drop l).maps = eraseCache s.maps l := rfl
   have hleases : (s.drop l).leases = AMap.erase s.leases l.mac := rfl
-  refine { keyed := ?_, untagged := ?_, vlanEmpty := ?_, sub := ?_, cid := ?_ }
+  have hpools : (s.drop l).maps.pools = s.maps.pools := by
+    rw [hmaps, eraseCache_untagged _ _ h0]; split <;> rfl
+  have hcfg : (s.drop l).maps.cfg = s.maps.cfg := by
+    rw [hmaps, eraseCache_untagged _ _ h0]; split <;> rfl
+  refine { keyed := ?_, untagged := ?_, vlanEmpty := ?_, sub := ?_, cid := ?_,
+           pools := by intro k v hk; rw [hpools] at hk; exact h.pools k v hk,
+           cfg := by obtain ⟨c, h1, h2⟩ := h.cfg; exact ⟨c, by rw [hcfg]; exact h1, h2⟩ }
   · intro m l' hm
     rw [hleases, AMap.lookup_erase] at hm
     split at hm
@@ -87,7 +106,7 @@ theorem inv_drop {s : Srv} (h : Inv s) (l : Lease) (hl : AMap.lookup s.leases l.
     rw [hmaps, eraseCache_untagged _ _ h0] at hk
     by_cases hc : l.cidBytes.isEmpty
     · simp only [hc, if_true, removeSubscriber] at hk
-      obtain ⟨l', h1, h2, h3, h4⟩ := h.cid k v hk
+      obtain ⟨l', p', h1, h2, h3, h4, h5⟩ := h.cid k v hk
       have hne : l'.mac ≠ l.mac := by
         intro e
         have : l' = l := by
@@ -95,7 +114,7 @@ theorem inv_drop {s : Srv} (h : Inv s) (l : Lease) (hl : AMap.lookup s.leases l.
         rw [this] at h2
         simp at hc
         exact h2 hc
-      refine ⟨l', ?_, h2, h3, ?_⟩
+      refine ⟨l', p', ?_, h2, h3, ?_, h5⟩
       · rw [hleases, AMap.lookup_erase]; simp [hne, h1]
       · rw [hbc]; simp [hc, h4]
     · simp only [hc, if_false, removeSubscriber, removeCidSubscriber, Bool.false_eq_true] at hk
@@ -103,7 +122,7 @@ theorem inv_drop {s : Srv} (h : Inv s) (l : Lease) (hl : AMap.lookup s.leases l.
       split at hk
       · cases hk
       · rename_i hne
-        obtain ⟨l', h1, h2, h3, h4⟩ := h.cid k v hk
+        obtain ⟨l', p', h1, h2, h3, h4, h5⟩ := h.cid k v hk
         have hcne : l'.cidBytes ≠ l.cidBytes := by
           intro e; rw [e] at h3; exact hne h3.symm
         have hmne : l'.mac ≠ l.mac := by
@@ -111,7 +130,7 @@ theorem inv_drop {s : Srv} (h : Inv s) (l : Lease) (hl : AMap.lookup s.leases l.
           have : l' = l := by
             rw [e, hl] at h1; exact (Option.some.inj h1).symm
           exact hcne (by rw [this])
-        refine ⟨l', ?_, h2, h3, ?_⟩
+        refine ⟨l', p', ?_, h2, h3, ?_, h5⟩
         · rw [hleases, AMap.lookup_erase]; simp [hmne, h1]
         · rw [hbc]; simp only [hc, if_false, Bool.false_eq_true]
           rw [AMap.lookup_erase]; simp [hcne, h4]
@@ -142,7 +161,7 @@ theorem inv_decline {s : Srv} (h : Inv s) (mac : Bytes) (o : Option UInt32) : In
 theorem inv_cleanup {s : Srv} (h : Inv s) : Inv s.cleanup := by
   unfold Srv.cleanup
   simp only []
-  generalize (List.map (·.1) (List.filter (fun e => decide (s.now > e.2.exp)) s.leases)) = ms
+  generalize (List.map (·.1) (List.filter (fun e => s.after e.2) s.leases)) = ms
   induction ms generalizing s with
   | nil => exact h
   | cons m rest ih =>
@@ -154,18 +173,70 @@ theorem inv_cleanup {s : Srv} (h : Inv s) : Inv s.cleanup := by
       exact inv_drop h l (by rw [h.keyed m l hl]; exact hl)
     · exact h
 
-theorem inv_setCfg {s : Srv} (h : Inv s) (mac : Bytes) (ip idx : UInt32) :
-    Inv { s with maps := setServerConfig s.maps mac ip idx } :=
-  { keyed := h.keyed, untagged := h.untagged, vlanEmpty := h.vlanEmpty, sub := h.sub, cid := h.cid }
+/-- reading the configured address back from `encCfg` (the eight bytes before it are the MAC and two pad bytes) -/
+theorem rd32_encCfg (mac : Bytes) (ip idx : UInt32) : rd32 (encCfg mac ip idx) 8 = ip := by
+  have hx : ip.toNat < 4294967296 := ip.toNat_lt
+  have e : UInt32.ofNat (leNat (leBytes 4 ip.toNat)) = ip := by
+    have : leNat (leBytes 4 ip.toNat) = ip.toNat := by
+      rw [leBytes4_eq]; simp only [leNat, UInt8.toNat_ofNat']; omega
+    rw [this]; exact UInt32.ofNat_toNat
+  have hm : (if mac.length ≥ 6 then mac.take 6 else List.replicate 6 0).length = 6 := by
+    split <;> simp <;> omega
+  match hmm : (if mac.length ≥ 6 then mac.take 6 else List.replicate 6 0), hm with
+  | [m0, m1, m2, m3, m4, m5], _ =>
+    simp only [encCfg, hmm, le32, leBytes4_eq, rd32, rdBytes] at *
+    simpa using e
+
+theorem inv_setCfg {s : Srv} (h : Inv s) (mac : Bytes) (idx : UInt32) :
+    Inv { s with maps := setServerConfig s.maps mac s.serverIp idx } :=
+  { keyed := h.keyed, untagged := h.untagged, vlanEmpty := h.vlanEmpty, sub := h.sub, cid := h.cid, pools := h.pools,
+    cfg := ⟨encCfg mac s.serverIp idx, rfl, Or.inl (rd32_encCfg _ _ _)⟩ }
 
 theorem inv_addPool {s : Srv} (h : Inv s) (p : PoolCfg) : Inv (s.addPool p) := by
   unfold Srv.addPool
   split
   · exact h
-  · exact { keyed := h.keyed, untagged := h.untagged, vlanEmpty := h.vlanEmpty, sub := h.sub, cid := h.cid }
+  · rename_i hnone
+    refine { keyed := h.keyed, untagged := h.untagged, vlanEmpty := h.vlanEmpty, sub := h.sub, cid := h.cid,
+             pools := ?_, cfg := h.cfg }
+    intro k v hk
+    simp only [CacheEnc.addPool, AMap.lookup_insert] at hk
+    split at hk
+    · rename_i e
+      refine ⟨p, by simp [AMap.lookup_insert], e, (Option.some.inj hk).symm⟩
+    · obtain ⟨P, h1, h2, h3⟩ := h.pools k v hk
+      refine ⟨P, ?_, h2, h3⟩
+      have : P.id ≠ p.id := by
+        intro e; rw [e, hnone] at h1; cases h1
+      simp [AMap.lookup_insert, this, h1]
+
+theorem inv_removePool {s : Srv} (h : Inv s) (id : UInt32) : Inv (s.removePool id) := by
+  unfold Srv.removePool
+  split
+  · exact h
+  · refine { keyed := h.keyed, untagged := h.untagged, vlanEmpty := h.vlanEmpty, sub := h.sub, cid := h.cid,
+             pools := ?_, cfg := h.cfg }
+    intro k v hk
+    simp only [AMap.lookup_erase] at hk
+    split at hk
+    · cases hk
+    · rename_i hne
+      obtain ⟨P, h1, h2, h3⟩ := h.pools k v hk
+      refine ⟨P, ?_, h2, h3⟩
+      have : P.id ≠ id := by
+        intro e; apply hne; rw [h2, e]
+      simp [AMap.lookup_erase, this, h1]
+
+theorem inv_setDefault {s : Srv} (h : Inv s) (id : UInt32) : Inv (s.setDefault id) := by
+  unfold Srv.setDefault
+  split
+  · exact h
+  · exact { keyed := h.keyed, untagged := h.untagged, vlanEmpty := h.vlanEmpty, sub := h.sub, cid := h.cid,
+            pools := h.pools, cfg := h.cfg }
 
 theorem inv_tick {s : Srv} (h : Inv s) (n : Nat) : Inv { s with now := s.now + n } :=
-  { keyed := h.keyed, untagged := h.untagged, vlanEmpty := h.vlanEmpty, sub := h.sub, cid := h.cid }
+  { keyed := h.keyed, untagged := h.untagged, vlanEmpty := h.vlanEmpty, sub := h.sub, cid := h.cid, pools := h.pools,
+    cfg := h.cfg }
 
 theorem staleMaps_sub (m : Maps) (st : Option Bytes) : (staleMaps m st).sub = m.sub := by cases st <;> rfl
 theorem staleMaps_vlan (m : Maps) (st : Option Bytes) : (staleMaps m st).vlan = m.vlan := by cases st <;> rfl
@@ -197,8 +268,14 @@ theorem inv_commit {s : Srv} (h : Inv s) (p : PoolCfg) (l : Lease) (stale : Opti
     Inv (s.commit p l stale) := by
   have hsub0 : (staleMaps s.maps stale).sub = s.maps.sub := staleMaps_sub _ _
   have hvlan0 : (staleMaps s.maps stale).vlan = s.maps.vlan := staleMaps_vlan _ _
+  have hpools0 : (writeCache (staleMaps s.maps stale) l p).pools = s.maps.pools := by
+    rw [writeCache_untagged _ _ _ hl0]; cases stale <;> (split <;> rfl)
+  have hcfg0 : (writeCache (staleMaps s.maps stale) l p).cfg = s.maps.cfg := by
+    rw [writeCache_untagged _ _ _ hl0]; cases stale <;> (split <;> rfl)
   unfold Srv.commit
-  refine { keyed := ?_, untagged := ?_, vlanEmpty := ?_, sub := ?_, cid := ?_ }
+  refine { keyed := ?_, untagged := ?_, vlanEmpty := ?_, sub := ?_, cid := ?_,
+           pools := by intro k v hk; simp only [hpools0] at hk; exact h.pools k v hk,
+           cfg := by obtain ⟨c, h1, h2⟩ := h.cfg; exact ⟨c, by simp only [hcfg0]; exact h1, h2⟩ }
   · intro m l' hm
     simp only [AMap.lookup_insert] at hm
     split at hm
@@ -234,7 +311,7 @@ theorem inv_commit {s : Srv} (h : Inv s) (p : PoolCfg) (l : Lease) (stale : Opti
     simp only [] at hk
     rw [writeCache_untagged _ _ _ hl0] at hk
     -- either the entry just written, or an old one that survived the stale erase
-    have hcases : (l.cidBytes ≠ [] ∧ k = cidKeyOf l.cidBytes) ∨
+    have hcases : (l.cidBytes ≠ [] ∧ k = cidKeyOf l.cidBytes ∧ v = encAssignment (assignmentOf l p)) ∨
         ((l.cidBytes = [] ∨ k ≠ cidKeyOf l.cidBytes) ∧ AMap.lookup (staleMaps s.maps stale).cid k = some v) := by
       by_cases hc : l.cidBytes.isEmpty
       · simp only [hc, if_true, addSubscriber] at hk
@@ -242,10 +319,10 @@ theorem inv_commit {s : Srv} (h : Inv s) (p : PoolCfg) (l : Lease) (stale : Opti
       · simp only [hc, if_false, addSubscriber, addCidSubscriber, Bool.false_eq_true] at hk
         rw [AMap.lookup_insert] at hk
         split at hk
-        · rename_i e; exact Or.inl ⟨by simpa using hc, e⟩
+        · rename_i e; exact Or.inl ⟨by simpa using hc, e, (Option.some.inj hk).symm⟩
         · rename_i hne; exact Or.inr ⟨Or.inr hne, hk⟩
-    rcases hcases with ⟨hne, hkk⟩ | ⟨hne, hold⟩
-    · refine ⟨l, by simp [AMap.lookup_insert], hne, hkk.symm, ?_⟩
+    rcases hcases with ⟨hne, hkk, hval⟩ | ⟨hne, hold⟩
+    · refine ⟨l, p, by simp [AMap.lookup_insert], hne, hkk.symm, ?_, hval⟩
       have : l.cidBytes.isEmpty = false := by
         cases hh : l.cidBytes with
         | nil => exact absurd hh hne
@@ -258,7 +335,7 @@ theorem inv_commit {s : Srv} (h : Inv s) (p : PoolCfg) (l : Lease) (stale : Opti
         · cases hold
         · rename_i hn
           exact ⟨hold, fun c hc e => hn ⟨c, hc, e⟩⟩
-      obtain ⟨l', h1, h2, h3, h4⟩ := h.cid k v hold'.1
+      obtain ⟨l', p', h1, h2, h3, h4, h5⟩ := h.cid k v hold'.1
       have hdiff : l'.cidBytes ≠ l.cidBytes := by
         intro ee
         rcases hne with hn | hn
@@ -272,7 +349,7 @@ theorem inv_commit {s : Srv} (h : Inv s) (p : PoolCfg) (l : Lease) (stale : Opti
       have hcne : stale ≠ some l'.cidBytes := by
         intro hc
         exact hold'.2 _ hc h3.symm
-      refine ⟨l', by simp [AMap.lookup_insert, hmne, h1], h2, h3, ?_⟩
+      refine ⟨l', p', by simp [AMap.lookup_insert, hmne, h1], h2, h3, ?_, h5⟩
       have hb0 : AMap.lookup (staleIdx s.byCid stale) l'.cidBytes = some l' := by
         rw [staleIdx_lookup]; simp [hcne, h4]
       by_cases hc : l.cidBytes.isEmpty
@@ -302,7 +379,7 @@ theorem inv_ack {s : Srv} (h : Inv s) (mac : Bytes) (ip : UInt32) (relayed : Boo
       cases hh : l0.cidBytes with
       | nil => exact absurd hh hne
       | cons a b => rfl
-    have c2 : (l0.cidBytes != (⟨mac, ip, p.id, s.now + p.leaseSecs.toNat, newCid (some l0) reqCid, 0, 0⟩ : Lease).cidBytes) = true := by
+    have c2 : (l0.cidBytes != (⟨mac, ip, p.id, s.now + p.leaseSecs.toNat, s.subMs, newCid (some l0) reqCid, 0, 0⟩ : Lease).cidBytes) = true := by
       rw [hex] at hdiff
       simpa using hdiff
     have c3 : (AMap.lookup s.byCid l0.cidBytes == some l0) = true := by simp [hby]
@@ -311,13 +388,17 @@ theorem inv_ack {s : Srv} (h : Inv s) (mac : Bytes) (ip : UInt32) (relayed : Boo
 /-- **Every history keeps the cache sound.** -/
 theorem inv_step {s : Srv} (h : Inv s) (op : Op) : Inv (s.step op) := by
   cases op with
-  | setCfg mac ip idx => exact inv_setCfg h mac ip idx
+  | setCfg mac idx => exact inv_setCfg h mac idx
+  | removePool id => exact inv_removePool h id
+  | setDefault id => exact inv_setDefault h id
   | addPool p => exact inv_addPool h p
   | ack mac ip relayed cid => exact inv_ack h mac ip relayed cid
   | release mac => exact inv_release h mac
   | decline mac o => exact inv_decline h mac o
   | cleanup => exact inv_cleanup h
   | tick n => exact inv_tick h n
+  | tickMs n => exact { keyed := h.keyed, untagged := h.untagged, vlanEmpty := h.vlanEmpty, sub := h.sub, cid := h.cid,
+                        pools := h.pools, cfg := h.cfg }
 
 theorem inv_run {s : Srv} (h : Inv s) (ops : List Op) : Inv (s.run ops) := by
   induction ops generalizing s with
